@@ -51,12 +51,16 @@ struct Core {
     premature: Option<String>,
     aborting: bool,
     cs_hash: u64,
+    /// notify_one calls whose woken thread has not announced itself yet (no decision is taken meanwhile)
+    pending_wakeups: usize,
 }
 pub struct Exec { m: Mutex<Core>, cv: Condvar, fringe_len: AtomicUsize, cut_fired: AtomicUsize }
 
 thread_local! {
     static WID: Cell<Option<usize>> = Cell::new(None);
     static INCS: Cell<bool> = Cell::new(false);
+    /// the named portion of code (section hook) the thread is in: names the next lock acquisition
+    static CURSITE: Cell<Option<Site>> = Cell::new(None);
     /// the execution this worker thread belongs to (a thread of an abandoned execution must never touch a later one)
     static MYEX: std::cell::RefCell<Option<Arc<Exec>>> = std::cell::RefCell::new(None);
 }
@@ -66,7 +70,7 @@ fn cur() -> Option<Arc<Exec>> { CUR.lock().unwrap().clone() }
 
 impl Exec {
     fn dispatch(&self, c: &mut Core) {
-        if c.current.is_some() || c.abandoned { return; }
+        if c.current.is_some() || c.abandoned || c.pending_wakeups > 0 { return; }
         if c.status.iter().any(|s| matches!(s, Status::NotStarted | Status::Running | Status::Waking)) { return; }
         let mut enabled: Vec<usize> = (0..c.n).filter(|i| c.status[*i] == Status::AtYield).collect();
         if enabled.is_empty() {
@@ -100,6 +104,7 @@ impl Exec {
     fn yield_here(&self, i: usize, site: Option<Site>) {
         let mut c = self.m.lock().unwrap();
         if c.abandoned { return; }
+        if c.status[i] == Status::Parked && c.pending_wakeups > 0 { c.pending_wakeups -= 1; }
         c.starved[i] = site == Some(Site::GetWorkload) && c.last_site[i] == Some(Site::GetWorkload);
         c.last_site[i] = site;
         c.status[i] = Status::AtYield;
@@ -140,12 +145,11 @@ fn hook(e: Event) {
             MYEX.with(|m| *m.borrow_mut() = None);
         }
         Event::Acquire(site) => {
+            // annotation only: names the acquisition(s) which follow
+            CURSITE.with(|c| c.set(Some(site)));
             if let Some(i) = WID.with(|w| w.get()) {
-                ex.yield_here(i, Some(site));
-                INCS.with(|f| f.set(true));
                 let mut c = ex.m.lock().unwrap();
                 c.time += 1;
-                c.cs_hash = c.cs_hash.wrapping_mul(0x100000001b3).wrapping_add((i as u64) << 8 | site as u64);
                 if site == Site::AbortSearch { c.aborting = true; }
                 match (site, c.phase[i]) {
                     (Site::BestLb, Phase::AfterGw(t)) => {
@@ -158,8 +162,19 @@ fn hook(e: Event) {
                 }
             }
         }
+        Event::Lock => {
+            // EVERY acquisition of the critical mutex by a worker is a scheduling point, named or not
+            if let Some(i) = WID.with(|w| w.get()) {
+                let site = CURSITE.with(|c| c.get());
+                ex.yield_here(i, site);
+                INCS.with(|f| f.set(true));
+                let mut c = ex.m.lock().unwrap();
+                c.cs_hash = c.cs_hash.wrapping_mul(0x100000001b3).wrapping_add((i as u64) << 8 | site.map_or(15, |s| s as u64));
+            }
+        }
+        Event::Unlock => { INCS.with(|f| f.set(false)); }
         Event::Released(site) => {
-            INCS.with(|f| f.set(false));
+            CURSITE.with(|c| c.set(None));
             if let Some(i) = WID.with(|w| w.get()) {
                 let mut c = ex.m.lock().unwrap();
                 c.time += 1;
@@ -179,6 +194,12 @@ fn hook(e: Event) {
         Event::AfterNotifyAll => {
             let mut c = ex.m.lock().unwrap();
             for j in 0..c.n { if c.status[j] == Status::Parked { c.status[j] = Status::Waking; } }
+        }
+        Event::AfterNotifyOne => {
+            // exactly one parked worker has been woken up by the real condvar (which one is its business: FIFO in
+            // parking_lot); it announces itself when it reaches its next scheduling point, no decision before that
+            let mut c = ex.m.lock().unwrap();
+            if c.status.iter().any(|s| *s == Status::Parked) { c.pending_wakeups += 1; }
         }
     }
 }
@@ -302,7 +323,7 @@ pub fn run_once(m: Arc<dyn Model>, u: &Unit, fire_at: usize, primal: &Option<(is
     let n = u.run;
     let ex = Arc::new(Exec {
         m: Mutex::new(Core { n, status: vec![Status::NotStarted; n], current: None, prev: None, prefix, trace: vec![], deadlock: false, livelock: false, abandoned: false, done: false, crashed: vec![], steps: 0, max_steps,
-                             last_site: vec![None; n], starved: vec![false; n], diverged: None, time: 0, phase: vec![Phase::Idle; n], nodes_by_worker: vec![0; n], exits: vec![], premature: None, aborting: false, cs_hash: 0xcbf29ce484222325 }),
+                             last_site: vec![None; n], starved: vec![false; n], diverged: None, time: 0, phase: vec![Phase::Idle; n], nodes_by_worker: vec![0; n], exits: vec![], premature: None, aborting: false, cs_hash: 0xcbf29ce484222325, pending_wakeups: 0 }),
         cv: Condvar::new(), fringe_len: AtomicUsize::new(0), cut_fired: AtomicUsize::new(0),
     });
     *CUR.lock().unwrap() = Some(ex.clone());
